@@ -74,6 +74,88 @@ def impl_road_albedo(pkg, m, s, e, alb, vc, va, full=False):
     return sol.mr / sol.roadSol
 
 
+def live_season_runs(chk):
+    """Real simulations that cross the start and the end of the vegetation season within one
+    simulate() call. Property-level oracles per step, from outside:
+      * every horizontal Element.SurfFlux: bare-ground absorption exactly outside the season,
+        vegetated absorption inside (month of the step from the clock);
+      * SolarCalcs.solarcalcs: vegetation heat is 0 outside the season, and its result equals what a
+        freshly constructed SolarCalcs computes at that very step (no state carried across steps)."""
+    import core
+    import uwgutil as U
+    uwg = U.uwg_mod()
+    import uwg.solarcalcs as SC
+    import uwg.element as EL
+    work = chk.work()
+    runs = [(3, 31, 2, 4, 10), (10, 31, 2, 4, 10)] if chk.tier == 'quick' else \
+        [(3, 31, 2, 4, 10), (10, 31, 2, 4, 10), (5, 31, 2, 6, 6), (6, 30, 2, 6, 6), (12, 30, 2, 2, 12), (1, 31, 2, 2, 12)]
+    bad, nsteps = [], [0]
+    orig_solar = SC.SolarCalcs.solarcalcs
+    orig_surf = EL.Element.SurfFlux
+
+    def snap(sol):
+        u = sol.UCM
+        return (u.road.solRec, u.treeSensHeat, u.treeLatHeat, sol.rural.solRec,
+                tuple(b.wall.solRec for b in sol.BEM), tuple(b.roof.solRec for b in sol.BEM),
+                u.SolRecRoad, u.SolRecWall)
+
+    def solar_wrap(self):
+        out = orig_solar(self)
+        a = snap(self)
+        p, mth = self.parameter, self.simTime.month
+        off = mth < p.vegStart or mth > p.vegEnd
+        nsteps[0] += 1
+        if off and (self.UCM.treeSensHeat != 0 or self.UCM.treeLatHeat != 0) and len(bad) < 3:
+            bad.append(('vegetation heat %r released in month %d outside season %d..%d' % (
+                self.UCM.treeSensHeat, mth, p.vegStart, p.vegEnd), mth))
+        fresh = SC.SolarCalcs(self.UCM, self.BEM, self.simTime, self.RSM, self.forc, self.parameter, self.rural)
+        orig_solar(fresh)
+        b = snap(fresh)
+        if a != b and len(bad) < 3:
+            bad.append(('solarcalcs result in month %d differs from a freshly constructed SolarCalcs at the same '
+                        'step: %r vs %r' % (mth, a[:3], b[:3]), mth))
+        return out
+
+    def surf_wrap(self, forc, parameter, simTime, *a, **k):
+        r = orig_surf(self, forc, parameter, simTime, *a, **k)
+        if self.horizontal and self.solRec > 0 and self.vegcoverage > 0 and parameter.vegAlbedo != self.albedo:
+            mth = simTime.month
+            off = mth < parameter.vegStart or mth > parameter.vegEnd
+            bare = (1.0 - self.albedo) * self.solRec
+            if (self.solAbs == bare) != off and len(bad) < 3:
+                bad.append(('%s: absorbed %r in month %d (season %d..%d) is %s the bare-ground value' % (
+                    self.name, self.solAbs, mth, parameter.vegStart, parameter.vegEnd,
+                    'equal to' if self.solAbs == bare else 'not'), mth))
+        return r
+    SC.SolarCalcs.solarcalcs = solar_wrap
+    EL.Element.SurfFlux = surf_wrap
+    done = 0
+    try:
+        for (mo, dy, nd, vs, ve) in runs:
+            m = U.new_model(outdir=work, outname='c18.epw', month=mo, day=dy, nday=nd, dtsim=300,
+                            vegstart=vs, vegend=ve)
+            nb = len(bad)
+            try:
+                with core.quiet():
+                    m.generate()
+                    m.simulate()
+                done += 1
+            except Exception as e:  # the model's own fail-stop is not a verdict here
+                chk.notes.append('live season run %s skipped: %s' % ((mo, dy), str(e)[:60]))
+            for msg, mth in bad[nb:]:
+                chk.violation('impl-violation', 'season oracle on a live simulation crossing the season boundary',
+                              case={'start': [mo, dy], 'nday': nd, 'vegstart': vs, 'vegend': ve, 'month': mth},
+                              observed=msg, expected='vegetation acts exactly in months vegstart..vegend, and '
+                                                     'the reflection model follows the current month')
+    finally:
+        SC.SolarCalcs.solarcalcs = orig_solar
+        EL.Element.SurfFlux = orig_surf
+    chk.direct('live-season-crossing(simulate)', nsteps[0], done,
+               'real 2-day simulations starting on the last day before / of the season (31 Mar, 31 Oct, ...): every '
+               'solarcalcs and horizontal SurfFlux call checked against the season of the step\'s calendar month and '
+               'against a freshly constructed SolarCalcs', mismatches=len(bad))
+
+
 def run(chk):
     chk.proof(MODULE, THEOREMS)
     if chk.tier == 'thorough':
@@ -166,6 +248,7 @@ def run(chk):
                'C18 statement (bare outside [start,end], vegetated inside; both models agree) on the '
                'real code for every start<=end triple (element fluxes, road albedo, vegetation heat)',
                mismatches=bad)
+    live_season_runs(chk)
     wrap = [(m, s, e) for (m, s, e, *_r) in meta2 if s > e]
     chk.measurements['wraparound'] = (
         'start > end (%d of 1728 triples): both routines treat every month as off-season '
